@@ -353,6 +353,20 @@ Section EvalMapLit.
   Qed.
 End EvalMapLit.
 
+(* the loop over m.Order (the code since 7307e12): effects happen in source order *)
+Definition mnode_effects (kn : str * mnode) : list Z := match snd kn with MPrint z => [z] | _ => [] end.
+Lemma evalMapLiteral_loop_source_order order : forall s pairs,
+  (forall kn, In kn order -> snd kn <> MPanic) ->
+  fst (evalMapLiteral_loop mev order s pairs) = s ++ flat_map mnode_effects order.
+Proof.
+  induction order as [|[k n] r IH]; intros s pairs NP; simpl.
+  - rewrite app_nil_r. reflexivity.
+  - destruct n as [z|z|]; simpl.
+    + rewrite IH by (intros kn H; apply NP; right; exact H). unfold mnode_effects at 2. simpl. rewrite <- app_assoc. reflexivity.
+    + rewrite IH by (intros kn H; apply NP; right; exact H). reflexivity.
+    + exfalso. apply (NP (k, MPanic)); [left; reflexivity | reflexivity].
+Qed.
+
 (* ---------- mapVal.Equals / sameMap ---------- *)
 Lemma mapVal_Equals_perm {V} (eqv : V -> V -> tri) pi1 pi2 len2 m2 :
   Permutation pi1 pi2 -> (forall kv, In kv pi1 -> equals_body eqv m2 kv <> PP) ->
